@@ -268,7 +268,7 @@ impl ChildLimit {
     if forward {
       term = term.next(2);
     }
-    let info: ChildLimitInfo = CHILD_LIMIT_PROVIDER.lock().unwrap().get_info(birth_time, term);
+    let info: ChildLimitInfo = CHILD_LIMIT_PROVIDER.lock().unwrap_or_else(|e| e.into_inner()).get_info(birth_time, term);
 
     Self {
       eight_char,
